@@ -131,7 +131,7 @@ func runClients(s *sim.Sim, cr *chainRun, sc *chainScen, after func(t *sim.Task,
 func (cfg *ChainCfg) handlerSees(r *ChainReq) (attrs, ctx, gen, params, sel string, reaches bool) {
 	fs := cfg.effectiveFilters(r.Target)
 	var as []string
-	params = fmt.Sprintf("id=tok%d", r.ID)
+	params = fmt.Sprintf("id=tok%d%s", r.ID, r.pad())
 	sel = "/svc/data/{id}"
 	if r.Target == "post" {
 		params, sel = "", "/svc/post"
